@@ -19,12 +19,12 @@ SWEEP_BATCH = 100
 SWEEP_EXHAUSTIVE_NOTE = ("bounded sweep over B base documents (B = 4 quick, 40 thorough): the archive truncated at every "
                          "64th byte (every 7th byte in the thorough tier) and content.xml cut at every tag boundary")
 FEATURES = ["colruns", "rowruns", "s-single", "s-noc", "paragraphs", "spans", "emptyp", "stored", "utf16", "latin1",
-            "colstyle", "trailing-empty-run", "annotations", "embedded-object"]
+            "colstyle", "trailing-empty-run", "annotations", "embedded-object", "links"]
 FAULT_KINDS = ["truncate", "xml-cut", "member-missing", "not-a-zip", "corrupt-member", "bad-repeat", "missing-sheet"]
 RULE_TEXT = (
     "seeded scenarios: 1-3 sheets of 0-6 rows x 0-8 cells over an alphabet with runs of equal cells, equal adjacent rows, "
     "multiple / leading / trailing blanks, tabs, line breaks, XML-special and non-ASCII characters, encoded by the ODF "
-    "peer with a random subset of its 14 optional encoding features, read by ods_rows(path, k) under a seeded chunk "
+    "peer with a random subset of its 15 optional encoding features, read by ods_rows(path, k) under a seeded chunk "
     "schedule; 35% carry exactly one fault; plus the bounded sweep in sweep_note. Non-trivial: the requested sheet has a "
     "non-empty cell (fault-free) / the fault fired (fault batch). Distinct: (features used in the encoding, sheet count "
     "and k, table shape, classes of special content, fault kind and position class, chunk regime)."
@@ -41,7 +41,7 @@ COMPONENTS = {
     "real": ["cutplace.rowio.ods_rows", "zipfile", "zlib", "xml.etree.ElementTree", "io.BufferedReader"],
     "stub": ["ODF peer (encoder)", "SimFS/SimRaw (short reads)", "fault injector"],
 }
-PROBES_REQUIRED = ["path-rewritten-between-two-reads", "used:office:annotation", "used:number-columns-repeated", "used:number-rows-repeated", "used:text:s", "used:text:tab",
+PROBES_REQUIRED = ["run-of-more-than-1024-equal-cells", "used:text:a", "path-rewritten-between-two-reads", "used:office:annotation", "used:number-columns-repeated", "used:number-rows-repeated", "used:text:s", "used:text:tab",
                    "used:text:line-break", "used:text:span", "used:paragraphs", "used:empty-paragraph",
                    "used:encoding:UTF-16", "sheet:1", "sheet:2", "sheet:3"] + ["fault:" + kind for kind in FAULT_KINDS]
 ALPHABETS = [["a", "b"], ["a", "", ""], ["a b", "a  b", " a", "a ", "  "], ["a\tb", "\t", "a"], ["l1\nl2", "\n", "a\n"],
@@ -91,14 +91,35 @@ def generate(seed, tier):
     if swarm.random() < 0.2:
         # the same path held another document a moment ago and was read then
         earlier = {"sheets": draw_sheets(rng, swarm), "features": sorted(swarm.sample(FEATURES, swarm.randint(0, 3)))}
+    wide_run = None
+    target = sheets[min(sheet, len(sheets)) - 1]
+    if target and fault is None and swarm.random() < 0.03:
+        # a run of equal cells far wider than anything a person types: sheets have up to 16384 columns
+        wide_run = {"sheet": min(sheet, len(sheets)) - 1, "row": rng.randrange(len(target)), "at": rng.randint(0, 8),
+                    "cell": rng.choice(["", "", "x"]), "count": rng.choice([1023, 1025, 2000, 16384])}
     return {"io": simfs.IoConfig.draw(swarm), "sheets": sheets, "features": features, "sheet": sheet, "fault": fault,
-            "earlier_document_at_same_path": earlier}
+            "earlier_document_at_same_path": earlier, "wide_run": wide_run}
+
+
+def expanded_sheets(scenario):
+    """The sheets with the optional wide run (kept compact in the scenario) spelled out."""
+    sheets = scenario["sheets"]
+    wide = scenario.get("wide_run")
+    if not wide or wide["sheet"] >= len(sheets) or wide["row"] >= len(sheets[wide["sheet"]]):
+        return sheets
+    sheets = copy.deepcopy(sheets)
+    row = sheets[wide["sheet"]][wide["row"]]
+    at = min(wide["at"], len(row))
+    row[at:at] = [wide["cell"]] * wide["count"]
+    return sheets
 
 
 def build(scenario):
     """(archive bytes, used features, logical tables, fault fired?)"""
-    sheets = scenario["sheets"]
+    sheets = expanded_sheets(scenario)
     features = set(scenario["features"])
+    if scenario.get("wide_run"):
+        features.add("colruns")  # nobody stores a run of thousands of equal cells one by one
     fault = scenario.get("fault")
     data, used, logical = odf.encode(sheets, features)
     if fault is None or fault["kind"] == "missing-sheet":
@@ -245,6 +266,8 @@ def execute(scenario):
     for name in sorted(used):
         result.probe("used:" + name)
     result.probe("sheet:%d" % sheet)
+    if scenario.get("wide_run") and scenario["wide_run"]["count"] > 1024:
+        result.probe("run-of-more-than-1024-equal-cells")
     if fault and fired:
         result.probe("fault:" + fault["kind"])
         result.fault(fault["kind"])
@@ -257,6 +280,8 @@ def execute(scenario):
     result.digest = history.digest()
     result.trace = {"features_used": sorted(used), "sheet": sheet, "fault": fault, "wanted": wanted,
                     "got": value if status == "ok" else lib.error_summary(value)}
+    if scenario.get("wide_run"):
+        result.trace = {"features_used": sorted(used), "sheet": sheet, "wide_run": scenario["wide_run"]}
 
     if status == "exc" and not isinstance(value, errors.DataFormatError):
         raise core.Violation("other-exception", ["class=" + type(value).__name__] + (["fault=" + fault["kind"]] if fault else []),
@@ -266,6 +291,10 @@ def execute(scenario):
             raise core.Violation("well-formed-document-rejected", sorted("uses=" + name for name in used), repr(value))
         if value != wanted:
             culprits = _culprits(scenario, wanted, value, used)
+            if scenario.get("wide_run"):
+                culprits = culprits + ["wide-run"]
+                raise core.Violation("sheet-differs-from-logical-table", culprits, "sheet %d: row lengths wanted %r, got %r" % (
+                    sheet, [len(row) for row in wanted], [len(row) for row in value]))
             raise core.Violation("sheet-differs-from-logical-table", culprits, "sheet %d: wanted %r, got %r" % (sheet, wanted, value))
         return result
     kind = fault["kind"]
@@ -303,6 +332,11 @@ def _culprits(scenario, wanted, got, used):
 
 def candidates(scenario):
     if scenario.get("sweep"):
+        return
+    if scenario.get("wide_run"):
+        yield lib.with_value(scenario, ["wide_run"], None)
+        if scenario["wide_run"]["count"] > 1025:
+            yield lib.with_value(scenario, ["wide_run", "count"], 1025)
         return
     sheets = scenario["sheets"]
     if len(sheets) > 1 and not (scenario.get("fault") or {}).get("kind") == "missing-sheet":
